@@ -1378,10 +1378,19 @@ impl Parser {
                             let value = if self.peek(&TokenEnum::Comma)
                                 || self.peek(&TokenEnum::RightBrace)
                             {
+                                if only_literal_children {
+                                    // `S { a }` stands for the variable `a`, which is no literal
+                                    self.push_error(ParseErrorEnum::InvalidLiteral, name_meta);
+                                    return Err(());
+                                }
                                 Expr::untyped(ExprEnum::Identifier(name.clone()), name_meta)
                             } else {
                                 self.expect(&TokenEnum::Colon)?;
-                                self.parse_expr()?
+                                if only_literal_children {
+                                    self.parse_literal_recusively()?
+                                } else {
+                                    self.parse_expr()?
+                                }
                             };
                             fields.push((name, value));
                             while self.next_matches(&TokenEnum::Comma).is_some() {
@@ -1392,10 +1401,18 @@ impl Parser {
                                 let value = if self.peek(&TokenEnum::Comma)
                                     || self.peek(&TokenEnum::RightBrace)
                                 {
+                                    if only_literal_children {
+                                        self.push_error(ParseErrorEnum::InvalidLiteral, name_meta);
+                                        return Err(());
+                                    }
                                     Expr::untyped(ExprEnum::Identifier(name.clone()), name_meta)
                                 } else {
                                     self.expect(&TokenEnum::Colon)?;
-                                    self.parse_expr()?
+                                    if only_literal_children {
+                                        self.parse_literal_recusively()?
+                                    } else {
+                                        self.parse_expr()?
+                                    }
                                 };
                                 fields.push((name, value));
                             }
